@@ -1535,6 +1535,25 @@ const JanetAbstractType janet_channel_type = {
 
 void janet_loop1_impl(int has_timeout, JanetTimestamp timeout);
 
+/* Stop and join the helper thread of a deadline that interrupts (ev/deadline with the intr? flag) */
+static void janet_timeout_reap_worker(JanetTimeout *to) {
+    if (!to->has_worker) return;
+#ifdef JANET_WINDOWS
+    QueueUserAPC(janet_timeout_stop, to->worker, 0);
+    WaitForSingleObject(to->worker, INFINITE);
+    CloseHandle(to->worker);
+#else
+#ifdef JANET_ANDROID
+    pthread_kill(to->worker, SIGUSR1);
+#else
+    pthread_cancel(to->worker);
+#endif
+    void *res;
+    pthread_join(to->worker, &res);
+#endif
+    to->has_worker = 0;
+}
+
 int janet_loop_done(void) {
     return !((janet_vm.spawn.head != janet_vm.spawn.tail) ||
              janet_vm.tq_count ||
@@ -1548,6 +1567,9 @@ JanetFiber *janet_loop1(void) {
     while (peek_timeout(&to) && to.when <= now) {
         pop_timeout(0);
         if (to.curr_fiber != NULL) {
+            /* The deadline is over either way: its helper thread, if any, is joined here (it was only
+             * joined when the deadline was dropped unexpired, and leaked when it expired) */
+            janet_timeout_reap_worker(&to);
             if (janet_fiber_can_resume(to.curr_fiber)) {
                 janet_cancel(to.fiber, janet_cstringv("deadline expired"));
             }
@@ -1608,21 +1630,7 @@ JanetFiber *janet_loop1(void) {
         while ((has_timeout = peek_timeout(&to))) {
             if (to.curr_fiber != NULL) {
                 if (!janet_fiber_can_resume(to.curr_fiber)) {
-                    if (to.has_worker) {
-#ifdef JANET_WINDOWS
-                        QueueUserAPC(janet_timeout_stop, to.worker, 0);
-                        WaitForSingleObject(to.worker, INFINITE);
-                        CloseHandle(to.worker);
-#else
-#ifdef JANET_ANDROID
-                        pthread_kill(to.worker, SIGUSR1);
-#else
-                        pthread_cancel(to.worker);
-#endif
-                        void *res;
-                        pthread_join(to.worker, &res);
-#endif
-                    }
+                    janet_timeout_reap_worker(&to);
                     janet_table_remove(&janet_vm.active_tasks, janet_wrap_fiber(to.curr_fiber));
                     pop_timeout(0);
                     continue;
